@@ -24,6 +24,25 @@ NOT_APPLICABLE = {
 
 # id -> (technique, level text, level note, design ref)
 CLAIMS = {
+    'C33': ('who-may-write lint (owner), observer purity, paired-update shape with the sign convention read from start(), '
+            'element-wise (scalar-index) count-update rule, mirror rule between deltaE_trial and update',
+            'Static, exhaustive over MonteCarloSampler: decides that only __init__/start/update write sampler state, that the '
+            'observers keep no hidden state, that start rebinds all state from fresh values, that each occupancy flip is '
+            'guarded and carries its set and count updates with start\'s sign and multiplicity, and that deltaE_trial '
+            'mirrors update. Necessary for the state being a function of the occupation after every history; energies '
+            'are not decided.',
+            'trusts CPython ast; the four state attributes and three owners confirmed by reading',
+            'DESIGN.md §4 C33'),
+    'C35': ('table agreement (jitclass spec / __init__ / attributes / param keys / copy order), external-name resolution '
+            'against the installed numpy, sibling sign agreement, exchange-symmetry of the swap bookkeeping, argument '
+            'agreement in MCmoves',
+            'Static, exhaustive over the compiled sampler: decides that the 18-field tables agree, that every name used '
+            'inside the jit class exists (otherwise no call can compile), that reference and compiled class share '
+            'method set and clustercount sign conventions, that the compiled update is a symmetric swap, and that '
+            'MCmoves applies exactly the move it evaluated under the Metropolis test. Equality of traces is an '
+            'execution and is not decided.',
+            'trusts CPython ast and the installed numpy/numba namespaces',
+            'DESIGN.md §4 C35'),
     'C14': ('allocation-token may-alias analysis with callee summaries (return-escape, write-through-alias with liveness), '
             'memo-guard key completeness, must-precede rule for Green-function state reads, cache-key coherence',
             'Static, exhaustive over every path of VacancyMediated.Lij and the data-preparation routines: decides that no '
